@@ -87,6 +87,36 @@ def rowRecord (g : Int) (r : Row) : Option Record :=
 
 def readEnergy (g : Int) (rows : List Row) : List Record := rows.filterMap (rowRecord g)
 
+/-- `readCTSettingsFile`: absent file = the build's defaults; otherwise the
+first line is the multiplier and the second the divider (as float bit patterns;
+`some none` = the line exists but does not parse, `none` = the line is missing).
+`none` result = error return. -/
+def readCT (present : Bool) (l1 l2 : Option (Option Nat)) (dflt : Nat × Nat) : Option (Nat × Nat) :=
+  if !present then some dflt else
+  match l1, l2 with
+  | some (some m), some (some d) => some (m, d)
+  | _, _ => none
+
+/-! ### The reporting loop (launchSendReports / threadedSendReports) -/
+
+/-- Start-up: every record of the energy file is saved (nothing is sent); the
+latest timeslot among the records whose save succeeded is remembered. -/
+def startup (h : Hist) (recs : List Record) : Hist × Nat :=
+  recs.foldl (fun (acc : Hist × Nat) r =>
+    match acc.1.save r.ts (r.energy % 2^32) with
+    | none => acc
+    | some h' => (h', if r.ts > acc.2 then r.ts else acc.2)) (h, 0)
+
+/-- One iteration of the loop on the records just read: a record is sent iff
+its save succeeded and its timeslot is newer than `latest`; afterwards `latest`
+advances to the newest timeslot among ALL records read. -/
+def loopIter (h : Hist) (latest : Nat) (recs : List Record) : Hist × Nat × List Record :=
+  let (h', sent) := recs.foldl (fun (acc : Hist × List Record) r =>
+    match acc.1.save r.ts (r.energy % 2^32) with
+    | none => acc
+    | some h' => (h', if r.ts > latest then acc.2 ++ [r] else acc.2)) (h, [])
+  (h', recs.foldl (fun l r => if r.ts > l then r.ts else l) latest, sent)
+
 /-! ### Sync reply (server/sync_listener_tcp.go builds, client/reports.go parses) -/
 
 structure Parsed where
